@@ -394,6 +394,12 @@ func (p *Prog) timeoutEmitSites() []timeoutEmitSite {
 						a = a.Args[0]
 					}
 					env := map[string]string{}
+					// d.Milliseconds() / Microseconds() / Nanoseconds() are the integer quotients by 1e6 / 1e3 / 1 ns
+					if a.Op == "call" && len(a.Args) == 1 {
+						if dv, ok := map[string]string{"(time.Duration).Milliseconds": "1000000", "(time.Duration).Microseconds": "1000", "(time.Duration).Nanoseconds": "1"}[a.Name]; ok {
+							a = &Term{Op: "binop", Name: "/", Args: []*Term{a.Args[0], {Op: "const", Name: dv}}}
+						}
+					}
 					switch {
 					case Match(a, "binop(/,$T,const($D))", env) || a.Op == "binop" && a.Name == "/" && len(a.Args) == 2 && a.Args[1].Op == "const":
 						var d int64
